@@ -46,7 +46,7 @@ class Field:
 
 
 def random_fields(rnd, n, allow_nested, prefix):
-    kinds = ["int"] * 5 + ["flt", "enum", "ptr", "cptr", "fnptr", "arr", "chararr", "ptrarr"] + (["nested"] * 2 if allow_nested else [])
+    kinds = ["int"] * 5 + ["flt", "enum", "ptr", "cptr", "fnptr", "arr", "arr2", "chararr", "ptrarr"] + (["nested"] * 2 if allow_nested else [])
     fs = []
     for i in range(n):
         k = rnd.choice(kinds)
@@ -65,6 +65,9 @@ def random_fields(rnd, n, allow_nested, prefix):
             fs.append(Field("fnptr", nm))
         elif k == "arr":
             fs.append(Field("arr", nm, ct=rnd.choice(["short", "int", "long", "unsigned long", "long long", "unsigned char", "double"]), n=rnd.randint(1, 5)))
+        elif k == "arr2":
+            # multi-dimensional member (rows of same-width and of ABI-dependent element types)
+            fs.append(Field("arr2", nm, ct=rnd.choice(["int", "char", "long", "short", "double", "unsigned char", "unsigned long"]), n=rnd.randint(2, 3), m=rnd.randint(2, 4)))
         elif k == "chararr":
             fs.append(Field("arr", nm, ct="char", n=rnd.choice([1, 3, 8, 13])))
         elif k == "ptrarr":
@@ -84,6 +87,8 @@ def ctype_decl(f, sname):
         return "int (*%s)(int);" % f.name, "int (*)(int)"
     if f.kind == "arr":
         return "%s %s[%d];" % (f.ct, f.name, f.n), "%s[%d]" % (f.ct, f.n)
+    if f.kind == "arr2":
+        return "%s %s[%d][%d];" % (f.ct, f.name, f.n, f.m), "%s[%d][%d]" % (f.ct, f.n, f.m)
     if f.kind == "ptrarr":
         return "%s* %s[%d];" % (f.pointee, f.name, f.n), "%s*[%d]" % (f.pointee, f.n)
     if f.kind == "nested":
@@ -98,6 +103,8 @@ def gtype_decl(f, sname):
         return "typename Cfg::P %s;" % f.name
     if f.kind == "arr":
         return "%s %s[%d];" % (SCALARS[f.ct][0], f.name, f.n)
+    if f.kind == "arr2":
+        return "%s %s[%d][%d];" % (SCALARS[f.ct][0], f.name, f.n, f.m)
     if f.kind == "ptrarr":
         return "typename Cfg::P %s[%d];" % (f.name, f.n)
     if f.kind == "nested":
@@ -128,6 +135,12 @@ def layout(fields, abi, inner_fields):
             o = place(s * f.n, s)
             for i in range(f.n):
                 leaves.append(("%s[%d]" % (f.name, i), o + i * s, s))
+        elif f.kind == "arr2":
+            s = size_of(f.ct, abi)
+            o = place(s * f.n * f.m, s)
+            for i in range(f.n):
+                for j in range(f.m):
+                    leaves.append(("%s[%d][%d]" % (f.name, i, j), o + (i * f.m + j) * s, s))
         elif f.kind == "ptrarr":
             s = ABIS[abi]["P"]
             o = place(s * f.n, s)
@@ -149,6 +162,8 @@ def leaf_paths(fields, inner_fields):
             out.append(f.name)
         elif f.kind in ("arr", "ptrarr"):
             out += ["%s[%d]" % (f.name, i) for i in range(f.n)]
+        elif f.kind == "arr2":
+            out += ["%s[%d][%d]" % (f.name, i, j) for i in range(f.n) for j in range(f.m)]
         elif f.kind == "nested":
             out += ["%s.%s" % (f.name, p) for p in leaf_paths(inner_fields, None)]
     return out
@@ -213,4 +228,4 @@ def gen_struct(k, rnd, path):
     with open(path, "w") as fh:
         fh.write("\n".join(o) + "\n")
     return dict(name=sname, fields=len(fields), leaves=len(paths), nested=has_nested,
-                kinds=sorted(set(f.kind + (":" + f.ct if f.kind in ("scalar", "arr") else "") for f in fields)))
+                kinds=sorted(set(f.kind + (":" + f.ct if f.kind in ("scalar", "arr", "arr2") else "") for f in fields)))
